@@ -293,6 +293,11 @@ class Worker:
         slot.ref_cache = {}
 
     def close(self):
+        ctl = seams.native_clock()
+        if ctl is not None:
+            self.probe("native_clock_reads", int(ctl[0]))
+            if ctl[3] != 0:
+                self.probe("native_clock_jump_applied")
         for ms in list(self.models):
             self._drop_model(ms)
         for srv in self.store_twins.values():
@@ -367,6 +372,11 @@ class Worker:
             parts["df"] = D.frame(df)
         except Exception as e:  # noqa: BLE001
             parts["df"] = _cls(e)
+        if hasattr(type(obj), "billing_df"):
+            try:
+                parts["billing_df"] = D.frame(obj.billing_df)
+            except Exception as e:  # noqa: BLE001
+                parts["billing_df"] = _cls(e)
         parts["warnings"] = D.text(D.jsonable(_wlist(getattr(obj, "warnings", None))))
         parts["disqualification"] = D.text(D.jsonable(_wlist(getattr(obj, "disqualification", None))))
         parts["tz"] = str(getattr(obj, "tz", None))
@@ -521,6 +531,15 @@ class Worker:
         elif how == "stall":
             self.clock.stalled = int(a["x"])
             self.clock_state = "stalled"
+        elif how == "native_jump":
+            # the clock native code reads (NLopt: gettimeofday) jumps by x seconds after n more reads
+            ctl = seams.native_clock()
+            if ctl is None:
+                return {"class": "not-fired", "why": "native clock shim not loaded"}
+            ctl[2] = int(float(a["x"]) * 1_000_000)
+            ctl[1] = ctl[0] + int(a.get("n", 1))
+            self.clock_state = "native-jump"
+            self.probe("native_clock_jump_armed")
         return {"class": "done"}
 
     def op_RNG(self, a, store):
@@ -578,6 +597,21 @@ class Worker:
         before = self.data_state(ds.obj)
         import numpy as np
 
+        # every frame the object hands out gets scribbled over: df, and billing_df where there is one (twice:
+        # a memoising property hands out its kept frame only from the second access on)
+        for _ in range(2):
+            try:
+                bdf = ds.obj.billing_df if hasattr(type(ds.obj), "billing_df") else None
+            except Exception:  # noqa: BLE001
+                bdf = None
+            if bdf is not None:
+                try:
+                    for c in list(bdf.columns):
+                        if bdf[c].dtype.kind == "f":
+                            bdf[c] = np.nan
+                    bdf["scribble"] = 1.0
+                except Exception:  # noqa: BLE001
+                    pass
         df = ds.obj.df
         try:
             if len(df):
@@ -943,7 +977,13 @@ class Worker:
         cap = int(a.get("cap", 160))
         ks = list(range(1, n + 1)) if n <= cap else sorted({1 + (i * n) // cap for i in range(cap)})
         bad = []
+        later = []
         fired = swallowed = 0
+        try:
+            with self._quiet():
+                base_res = D.frame(self._do_predict(copy.deepcopy(slot.obj), slot.fam, ds.obj, ignore, None))
+        except Exception as e:  # noqa: BLE001
+            base_res = _cls(e)
         for k in ks:
             mk = copy.deepcopy(slot.obj)
             mon, _res, err = seams.run_with_abort(
@@ -957,14 +997,65 @@ class Worker:
             if dg != base_dg:
                 paths = D.top_diff(json.loads(base_txt), json.loads(txt)) if (base_txt and txt) else ["state"]
                 bad.append({"k": k, "where": mon.where, "paths": paths})
+                continue
+            # state that to_json does not show: the object must still answer as before
+            try:
+                with self._quiet():
+                    again = D.frame(self._do_predict(mk, slot.fam, ds.obj, ignore, None))
+            except Exception as e:  # noqa: BLE001
+                again = _cls(e)
+            if again != base_res:
+                later.append({"k": k, "where": mon.where, "got": again if again.startswith("raised") else "frame"})
         d_after = self.data_state(ds.obj)
         self.probe("abort_sweep_points", fired)
         if swallowed:
             self.probe("abort_swallowed_by_library", swallowed)
         sig, nt = self._presig("ABORT_SWEEP", slot)
         return {"class": "done", "fam": slot.fam, "profile": slot.profile, "entries": n, "points": len(ks), "fired": fired,
-                "dry": dry, "altered": bad[:6], "n_altered": len(bad), "data_changed": D.diff_parts(d_before, d_after),
+                "dry": dry, "altered": bad[:6], "n_altered": len(bad), "later_differs": later[:6],
+                "data_changed": D.diff_parts(d_before, d_after),
                 "presig": sig, "nontrivial": True, "abort": {"fired": fired > 0, "sweep": True}}
+
+    def op_FIT_ABORT_SWEEP(self, a, store):
+        """Sampled crash points of one fit (log-spaced and evenly spaced library-frame entries): the data object must be
+        untouched whichever point the exception is delivered at.  The model of an aborted fit is discarded."""
+        ds = self.data.get(a["d"])
+        fam, profile = a["fam"], a["profile"]
+        if ds is None or fam == "caltrack":
+            return {"class": "skipped"}
+        facts = self._fit_facts(fam, profile, ds)
+        if facts.get("wrong_type"):
+            return {"class": "skipped"}
+        kw = {"ignore_disqualification": True}
+        before = self.data_state(ds.obj)
+        try:
+            with self._quiet():
+                m0 = P.make_model(self.em, fam, profile)
+            d0 = copy.deepcopy(ds.obj)
+            n, dry = seams.count_entries(lambda: self._call(lambda: m0.fit(d0, **kw)))
+        except Exception as e:  # noqa: BLE001
+            return {"class": "skipped", "why": _cls(e)}
+        npts = int(a.get("points", 12))
+        ks = sorted({max(1, int(round(n ** (i / (npts - 1))))) for i in range(npts)} |
+                    {1 + (i * n) // npts for i in range(npts)})
+        changed = []
+        fired = 0
+        for k in ks:
+            with self._quiet():
+                mk = P.make_model(self.em, fam, profile)
+            mon, _res, err = seams.run_with_abort(lambda: self._call(lambda: mk.fit(ds.obj, **kw)), k, a.get("exc", "MemoryError"))
+            if not mon.fired:
+                continue
+            fired += 1
+            diff = D.diff_parts(before, self.data_state(ds.obj))
+            if diff:
+                changed.append({"k": k, "where": mon.where, "attrs": diff})
+                break
+        self.probe("fit_abort_sweep_points", fired)
+        sig, nt = self._presig("FIT_ABORT_SWEEP")
+        sig["fam"], sig["profile"] = fam, profile
+        return {"class": "done", "fam": fam, "profile": profile, "entries": n, "points": len(ks), "fired": fired,
+                "data_altered": changed, "presig": sig, "nontrivial": True, "abort": {"fired": fired > 0, "sweep": True}}
 
     def op_PREDICT_PAIR(self, a, store):
         """C05: two twins of the model's *current* state, reporting sets differing only in `observed`."""
@@ -976,16 +1067,19 @@ class Worker:
         rA = dict(a["recipe"])
         rB = dict(rA)
         rB["obs"] = a["alter"]
+        pagg = a.get("agg") if slot.fam == "billing" else None
         sig, nt = self._presig("PREDICT_PAIR", slot)
         sig["span"], sig["alter"] = rA.get("span"), a["alter"]
-        out = {"fam": slot.fam, "profile": slot.profile, "alter": a["alter"], "presig": sig, "nontrivial": True,
+        out = {"fam": slot.fam, "profile": slot.profile, "alter": a["alter"], "agg": pagg, "presig": sig, "nontrivial": True,
                "covers": bool(slot.base_recipe and C.covers_full_year(slot.base_recipe)),
                "history": {"n_prev": slot.n_predicts, "prev_span": slot.prev_span, "gen": slot.gen}}
         res = []
         seq = bool(a.get("seq"))
         out["seq"] = seq
         shared = copy.deepcopy(slot.obj) if seq else None
-        for r in (rA, rB):
+        # sequential pairs: ONE copy predicts the altered set first and the reference set afterwards
+        order = (rB, rA) if seq else (rA, rB)
+        for r in order:
             try:
                 fresh = self._fresh_data(r)
             except Exception as e:  # noqa: BLE001  the data class refused the frame: no pair to compare
@@ -995,10 +1089,24 @@ class Worker:
             try:
                 tw = shared if seq else copy.deepcopy(slot.obj)
                 with self._quiet():
-                    res.append(("returned", self._do_predict(tw, slot.fam, fresh, True, None)))
+                    res.append(("returned", self._do_predict(tw, slot.fam, fresh, True, pagg)))
             except Exception as e:  # noqa: BLE001
                 res.append((_cls(e), None))
                 out.setdefault("errors", []).append(str(e)[:160])
+        if seq:
+            res = [res[1], res[0]]   # back to (reference set, altered set)
+            # the reference set once more, by a copy that has not seen the altered usage: the two answers to the
+            # same reporting set must be the same frame (missing predictions included)
+            try:
+                with self._quiet():
+                    alone = self._do_predict(copy.deepcopy(slot.obj), slot.fam, self._fresh_data(rA), True, pagg)
+                if res[0][1] is not None:
+                    out["after_altered_same"] = D.frame(alone) == D.frame(res[0][1])
+                    if not out["after_altered_same"]:
+                        out["after_altered_diff"] = sorted(D.diff_parts(D.frame_parts(alone), D.frame_parts(res[0][1])))
+            except Exception as e:  # noqa: BLE001
+                out["after_altered_same"] = None if res[0][1] is None else False
+                out["after_altered_diff"] = [_cls(e)]
         out["classes"] = [res[0][0], res[1][0]]
         out["class"] = "done"
         if res[0][1] is not None and res[1][1] is not None:
@@ -1107,6 +1215,9 @@ class Worker:
             if form == "dict":
                 d = self._call(lambda: slot.obj.to_dict())
                 txt = json.dumps(d)
+                keep = json.loads(txt)      # what goes into the store: independent of the caller's dict
+                self._scribble_doc(d)       # the caller edits the dict it was handed
+                d = keep
             else:
                 txt = self._call(lambda: slot.obj.to_json())
                 d = None
@@ -1158,6 +1269,30 @@ class Worker:
             out["twin_error"] = _cls(e)
         out["doc"] = doc_id
         return out
+
+    @staticmethod
+    def _scribble_doc(d, depth=0):
+        """Edit a handed-out document in place, nested parts included (round numbers, empty lists, drop keys)."""
+        if depth > 6:
+            return
+        if isinstance(d, dict):
+            for k in list(d.keys()):
+                v = d[k]
+                if isinstance(v, (dict, list)):
+                    Worker._scribble_doc(v, depth + 1)
+                elif isinstance(v, float):
+                    d[k] = round(v, 1) + 1.0
+                elif isinstance(v, str):
+                    d[k] = v + "~"
+            d["scribble"] = True
+        elif isinstance(d, list):
+            for i, v in enumerate(d):
+                if isinstance(v, (dict, list)):
+                    Worker._scribble_doc(v, depth + 1)
+                elif isinstance(v, float):
+                    d[i] = round(v, 1) + 1.0
+            if d and not isinstance(d[0], (dict, list)):
+                del d[-1:]
 
     def op_LOAD(self, a, store):
         entry = store.get(a["doc"])
